@@ -199,9 +199,18 @@ pub fn run_reader<T: EbmlSpecification<T> + EbmlTag<T> + Clone>(
     if cfg.allow_id { allow.push(AllowableErrors::InvalidTagIds); }
     if cfg.allow_hier { allow.push(AllowableErrors::HierarchyProblems); }
     if cfg.allow_size { allow.push(AllowableErrors::OversizedTags); }
-    if !allow.is_empty() { it.allow_errors(&allow); }
-    match cfg.max { MaxCfg::Default => {}, MaxCfg::None => it.set_max_allowable_tag_size(None), MaxCfg::Some(m) => it.set_max_allowable_tag_size(Some(m)) }
-    if !cfg.eof_close { it.emit_master_end_when_eof(false); }
+    // every setting is made twice, first to something else: a configuration call replaces what the previous one said
+    // (all of it happens before the first item is read)
+    it.allow_errors(&[AllowableErrors::InvalidTagIds, AllowableErrors::HierarchyProblems, AllowableErrors::OversizedTags]);
+    it.allow_errors(&allow);
+    match cfg.max {
+        MaxCfg::Default => {},
+        MaxCfg::None => { it.set_max_allowable_tag_size(Some(3)); it.set_max_allowable_tag_size(None) },
+        MaxCfg::Some(m) => { it.set_max_allowable_tag_size(None); it.set_max_allowable_tag_size(Some(m)) },
+    }
+    it.emit_master_end_when_eof(cfg.eof_close);
+    it.emit_master_end_when_eof(!cfg.eof_close);
+    it.emit_master_end_when_eof(cfg.eof_close);
 
     let mut results = Vec::new();
     let (script, extra, max_calls, recovering): (Option<&Vec<Call>>, usize, usize, bool) = match calls {
